@@ -126,7 +126,13 @@ class TimeBoundedPopScore(PopScorer):
             return
         else:
             start_timestamp = self.config.cutoff.timestamp()
-            item_ids = log["item_id"][log["timestamp"] > start_timestamp]
+            times = log["timestamp"]
+            if pd.api.types.is_datetime64_any_dtype(times):
+                # date-time columns are compared as seconds since the epoch, like integer ones
+                if times.dt.tz is not None:
+                    times = times.dt.tz_convert("UTC").dt.tz_localize(None)
+                times = (times - pd.Timestamp(0)) / pd.Timedelta(seconds=1)
+            item_ids = log["item_id"][times > start_timestamp]
             counts = item_ids.value_counts().reindex(data.items.index, fill_value=0)
 
             item_scores = super()._train_internal(counts)
